@@ -3,6 +3,8 @@
 from __future__ import annotations
 
 from xknx.cemi.cemi_frame import CEMILData
+from xknx.telegram.address import GroupAddress, GroupAddressType, IndividualAddress
+from xknx.telegram.apci import GroupValueRead, IndividualAddressRead
 from xknx.exceptions import ConversionError, CouldNotParseCEMI, UnsupportedCEMIMessage
 from xknx.telegram import tpci as tpci_mod
 from xknx.telegram.tpci import TPCI
@@ -17,7 +19,8 @@ LEVEL_TEXT = (
     "All 256 octets x {individual, individual 0.0.0, group != 0, group 0 (broadcast)} are decoded by the real TPCI.resolve and, "
     "inside minimal L_Data frames, by the real CEMILData.from_knx; every returned PDU is re-encoded. All 54 constructible PDUs "
     "(6 unnumbered + 3 numbered classes x sequence numbers 0..15) are encoded and decoded back for their destination kind. "
-    "The finite space is completed (exhaustive)."
+    "Everything runs under the three group address notations (GroupAddress.address_format set by the harness, restored), and every "
+    "constructible PDU also travels through a real CEMILData frame for its destination kind. The finite space is completed (exhaustive)."
 )
 LEVEL_NOTE = (
     "Trusted: CPython, my table of the defined codings (KNX 03_03_04 Transport Layer section 2: 000000xx data group/broadcast/individual, "
@@ -158,6 +161,9 @@ def _mutation_probe(ctx, where, octet, kname, kind, pdu, decode_again):
         pass
 
 
+NOTATION_NAME = ["LONG"]   # notation in force (set by run), for mechanism strings / witnesses
+
+
 def _cemi_frame(octet: int, is_group: bool, is_zero: bool, tail: bytes) -> bytes:
     ctrl1 = 0xBC
     ctrl2 = 0xE0 if is_group else 0x60
@@ -234,6 +240,13 @@ def _exhaustive_octets(ctx):
                 continue
             if not _judge_pdu(ctx, "cemi", octet, kname, kind, pdu):
                 continue
+            if what == "pdu" and (type(pdu) is not type(res) or pdu.sequence_number != res.sequence_number):
+                ctx.violation(f"cemi-{kind}-destination-decodes-as-{type(pdu).__name__}-instead-of-{type(res).__name__}-{NOTATION_NAME[0]}-notation",
+                              {"cemi": raw, "octet": octet, "kind": kname, "notation": NOTATION_NAME[0], "decoded": repr(pdu), "resolve": repr(res)},
+                              f"frame {raw.hex()} ({kname} destination, {NOTATION_NAME[0]} notation) decodes to {pdu!r}; "
+                              f"TPCI.resolve for that destination kind gives {res!r}")
+                continue
+            ctx.count("cemi_decoded_class_equals_resolve")
 
             def _again_cemi(raw=raw):
                 try:
@@ -272,6 +285,36 @@ def _constructible():
         for seq in range(16):
             out.append((cls, seq, ("individual", "individual0")))
     return out
+
+
+def _constructible_through_cemi(ctx):
+    """Every PDU the library builds, put into a real CEMILData for its destination kind, serialised and parsed back."""
+    src = IndividualAddress("1.1.1")
+    dests = {"group": GroupAddress(0x0A03), "broadcast": GroupAddress(0), "individual": IndividualAddress(0x1105), "individual0": IndividualAddress(0)}
+    for cls, seq, knames in _constructible():
+        name = cls.__name__
+        for kname in knames:
+            ctx.ev()
+            ctx.count("pdu_cemi_roundtrips")
+            pdu = cls() if seq is None else cls(sequence_number=seq)
+            payload = None if pdu.control else (GroupValueRead() if kname in ("group", "broadcast") else IndividualAddressRead())
+            wit = {"pdu": name, "sequence_number": seq, "kind": kname, "notation": NOTATION_NAME[0]}
+            try:
+                raw = CEMILData(src_addr=src, dst_addr=dests[kname], tpci=pdu, payload=payload).to_knx()
+                wit["cemi"] = raw
+                back = CEMILData.from_knx(raw).tpci
+            except BaseException as exc:  # noqa: BLE001
+                wit["exception"] = repr(exc)
+                ctx.violation(f"build-{name}-cemi-roundtrip-raises-{type(exc).__name__}-{NOTATION_NAME[0]}-notation", wit,
+                              f"{pdu!r} to a {kname} destination through CEMILData raised {type(exc).__name__} ({NOTATION_NAME[0]} notation)")
+                continue
+            wit["decoded"] = repr(back)
+            if _same_pdu(pdu, back):
+                ctx.count("pdu_cemi_roundtrip_ok")
+                ctx.distinct(("build-cemi", name, kname, seq, NOTATION_NAME[0]))
+            else:
+                ctx.violation(f"build-{name}-decodes-back-through-cemi-as-{type(back).__name__}-{NOTATION_NAME[0]}-notation", wit,
+                              f"{pdu!r} to a {kname} destination is sent as {raw.hex()} and parsed back as {back!r} ({NOTATION_NAME[0]} notation)")
 
 
 def _same_pdu(a, b) -> bool:
@@ -332,19 +375,31 @@ def _constructible_roundtrip(ctx):
 
 def run(ctx):
     ctx.rule = ("exhaustive: 256 octets x 4 destination kinds (individual, individual 0.0.0, group, broadcast) through TPCI.resolve and through "
-                "CEMILData.from_knx; 54 constructible PDUs x their destination kinds; distinct = (kind, octet class, outcome) and (PDU, kind, seq)")
+                "CEMILData.from_knx; 54 constructible PDUs x their destination kinds, directly and inside real CEMILData frames; all of it under the "
+                "LONG, SHORT and FREE group address notation; distinct = (kind, octet class, outcome) and (PDU, kind, seq)")
     ctx.require("resolve_calls", "rejected", "decoded", "accepted_and_reencodes", "cemi_decoded", "cemi_frame_reencodes",
-                "pdu_roundtrips", "pdu_roundtrip_ok", "decoded_pdu_mutated_then_decoded_again", "second_decode_pristine")
+                "pdu_roundtrips", "pdu_roundtrip_ok", "decoded_pdu_mutated_then_decoded_again", "second_decode_pristine",
+                "pdu_cemi_roundtrips", "pdu_cemi_roundtrip_ok", "cemi_decoded_class_equals_resolve")
     # self test of the reference table: 4 + 4 + 64 + 2 + 32 defined codes for individual, 8 for group
     n_ind = sum(ref_decode(o, "individual") is not None for o in range(256))
     n_grp = sum(ref_decode(o, "group") is not None for o in range(256))
     if (n_ind, n_grp) != (4 + 64 + 2 + 32, 8):
         ctx.inconclusive(f"reference table self test failed: {n_ind}, {n_grp}")
         return
-    _exhaustive_octets(ctx)
-    _constructible_roundtrip(ctx)
+    saved = GroupAddress.address_format
+    try:
+        for fmt in (GroupAddressType.LONG, GroupAddressType.SHORT, GroupAddressType.FREE):
+            GroupAddress.address_format = fmt
+            NOTATION_NAME[0] = fmt.name
+            ctx.count("notations_run")
+            _exhaustive_octets(ctx)
+            _constructible_roundtrip(ctx)
+            _constructible_through_cemi(ctx)
+    finally:
+        GroupAddress.address_format = saved
+        NOTATION_NAME[0] = "LONG"
     ctx.exhaustive = True
-    ctx.extra["exhaustive_part"] = "256 octets x 4 destination kinds; 54 PDUs"
+    ctx.extra["exhaustive_part"] = "(256 octets x 4 destination kinds; 54 PDUs directly and through cEMI frames) x 3 group address notations"
 
 
 def replay(ctx, witness):
